@@ -2,7 +2,7 @@ From Coq Require Import List ZArith Bool.
 From Echo Require Import Base.Sx Mw.RateLimit.
 Import ListNotations.
 Open Scope Z_scope.
-(* input: (rate_per_second burst expires_ticks start_tick ((id tick) ...)), 512 ticks per second
+(* input: (a burst expires_ticks start_tick ((id tick) ...) b): rate = a tokens per b ticks, 512 ticks per second
    output: ((ran status) ...) *)
 Definition run_sx (x : sx) : sx :=
   let a := as_Z (nth_sx 0 x) in
@@ -11,4 +11,4 @@ Definition run_sx (x : sx) : sx :=
   let t0 := as_Z (nth_sx 3 x) in
   let evs := map (fun e => (as_str (nth_sx 0 e), as_Z (nth_sx 1 e))) (as_list (nth_sx 4 x)) in
   SL (map (fun ok => let '(st, ran) := middleware ok in SL [of_bool ran; SZ st])
-          (store_run a 512 B E str str_eqb (store0 str t0) evs)).
+          (store_run a (as_Z (nth_sx 5 x)) B E str str_eqb (store0 str t0) evs)).
